@@ -126,7 +126,11 @@ func childMain() {
 	}
 	buf := make([]byte, 128)
 	rec := make([]byte, recSize)
+	deadline, _ := strconv.ParseInt(os.Getenv("C09_DEADLINE"), 10, 64)
 	fw.ChildLoop(func(i int) string {
+		if deadline > 0 && time.Now().UnixNano() > deadline {
+			return `{"status":"skipped"}` // budget used up: fw.Supervise only stops feeding at process restarts
+		}
 		if _, err := ff.ReadAt(rec, int64(i/2)*recSize); err != nil {
 			fw.Fatalf("frontier record %d: %v", i/2, err)
 		}
@@ -284,13 +288,9 @@ func (e *explorer) runLayer(depth int, hs []history) (results [][2]*caseResult, 
 	if workers > n {
 		workers = n
 	}
-	type crashed struct {
-		i int
-		c *fw.Crash
-	}
-	var crashes []crashed
+	skipped := false
 	done := fw.Supervise(fw.SupOpts{N: n, Workers: workers, CaseTimeout: 5 * time.Minute, Mode: "layer",
-		Env:  append([]string{"C09_FRONTIER=" + fpath, "C09_MARKDIR=" + markdir}, childEnv...),
+		Env:  append([]string{"C09_FRONTIER=" + fpath, "C09_MARKDIR=" + markdir, fmt.Sprintf("C09_DEADLINE=%d", e.run.Deadline.UnixNano())}, childEnv...),
 		Stop: func() bool { return e.run.Expired() }},
 		func(i int, res string, crash *fw.Crash) {
 			if crash != nil {
@@ -305,7 +305,6 @@ func (e *explorer) runLayer(depth int, hs []history) (results [][2]*caseResult, 
 				}
 				r.Fail.Test = fw.FirstLines(crash.Stderr, 3)
 				results[i/2][i%2] = r
-				crashes = append(crashes, crashed{i, crash})
 				return
 			}
 			var r caseResult
@@ -318,11 +317,15 @@ func (e *explorer) runLayer(depth int, hs []history) (results [][2]*caseResult, 
 				e.outcomes.AddN(k, int64(v))
 			}
 			r.Outs = nil
+			if r.Status == "skipped" {
+				skipped = true
+				return
+			}
 			results[i/2][i%2] = &r
 		})
 	os.Remove(fpath)
 	os.RemoveAll(markdir)
-	return results, done == n
+	return results, done == n && !skipped
 }
 
 // report handles one failing case: classification, re-runs in fresh processes, violation / known finding.
